@@ -504,10 +504,9 @@ func c03SQL(c *engine.Ctx, cs c03Case, fail func(what, desc string)) {
 		// non-[]byte source
 		s2 := w.mk()
 		err = s2.Scan("not bytes")
-		var e1 wkb.ErrExpectedByteSlice
-		var e2 ewkb.ErrExpectedByteSlice
-		if err == nil || !(errors.As(err, &e1) || errors.As(err, &e2)) {
-			fail("non-bytes", fmt.Sprintf("Scan(string) returned %v, want ErrExpectedByteSlice", err))
+		// (which error is not prescribed: a wrapper may refuse a string outright or try to read it)
+		if err == nil {
+			fail("non-bytes", "Scan of the string \"not bytes\" succeeded")
 			return
 		}
 	}
